@@ -268,11 +268,13 @@ func (w *World) processCommits() {
 		for _, ss := range w.srcs {
 			need := int64(-1)
 			for _, ps := range w.pairs {
-				if ps.src == ss && ps.maxEverNum > need {
-					need = ps.maxEverNum
+				// only a position that is not on the canonical chain and not
+				// below the head needs a child block to become detectable
+				if ps.src == ss && ps.curNum >= int64(ss.node.HeadNum()) && len(ps.curHash) == 32 && !ss.node.IsCanonical(ps.curHash) && ps.curNum > need {
+					need = ps.curNum
 				}
 			}
-			if d := need + 1 - int64(ss.node.HeadNum()); d > 0 {
+			if d := need + 1 - int64(ss.node.HeadNum()); need >= 0 && d > 0 {
 				ss.node.Grow(int(d))
 				w.logf("settle %s +%d head=%d", ss.plan.Name, d, ss.node.HeadNum())
 				for _, ps := range w.pairs {
